@@ -446,14 +446,14 @@ func c10BurnExec(ctx *vk.Ctx, c c10BurnCase) error {
 			return fmt.Errorf("burner %d %+v: sequence %d -> %d", i, b, seq0, seq1)
 		}
 		ctx.Class("shape=" + b.Shape)
+		if err := axGasBound(ctx, r, b.Gas, fmt.Sprintf("burner %d %+v", i, b)); err != nil {
+			return err
+		}
 		if r.Error == nil {
 			marker++
 			ctx.Class("completed:" + b.Shape)
 			if b.Shape == "Forever" {
 				return fmt.Errorf("burner %d: an endless loop was reported successful (gas used %d)", i, r.GasUsed)
-			}
-			if r.GasUsed > r.GasWanted {
-				return fmt.Errorf("burner %d %+v: successful with GasUsed %d > GasWanted %d", i, b, r.GasUsed, r.GasWanted)
 			}
 			if float64(r.GasUsed)*float64(den) < work*float64(num) {
 				key := "unmetered-work:" + b.Shape
@@ -474,7 +474,6 @@ func c10BurnExec(ctx *vk.Ctx, c c10BurnCase) error {
 			if bal0-bal1 != axFee {
 				return fmt.Errorf("burner %d %+v ran out of gas; balance changed by %d, fee is %d", i, b, bal0-bal1, axFee)
 			}
-			ctx.ClassIf(r.GasUsed > r.GasWanted, "oog-reported-gas-used-exceeds-wanted")
 			nt = true
 		}
 		got, err := e.C.QEval(axBurnPath, "Marker")
